@@ -130,7 +130,7 @@ def run(ctx):
     import simnet
     from refserver import RefServer
     import minecraft.networking.connection as C
-    for sid in ('', 'srv-é', 'a1b2c3'):
+    for sid in ('', 'srv-é', 'a1b2c3', '\ufeffsrv', '\ufeff'):
         joins = []
 
         class Tok:
@@ -161,6 +161,37 @@ def run(ctx):
                           'Java would compute %s' % (sid, bad_at + 1, joins[bad_at] if bad_at < len(joins) else None,
                                                      expected[bad_at] if bad_at < len(expected) else None),
                           {'server_id': sid, 'joins': joins, 'expected': expected}, key={'kind': 'join-sequence', 'server_id': sid})
+    # ---- logins running at the same time in several threads (every connection has its own networking thread):
+    # each call hashes its OWN three inputs.  Seeded inputs, a tiny switch interval, bounded work.
+    import sys as _sys
+    import threading as _th
+    old_si = _sys.getswitchinterval()
+    jobs = [[('srv%d-%d' % (t_, k), bytes([t_, k % 256]) * 8, bytes([k % 256, t_]) * 40) for k in range(ctx.scale(1500, 6000))]
+            for t_ in range(4)]
+    wrong = []
+
+    def worker(job):
+        for sid_, sec_, key_ in job:
+            try:
+                got_ = encryption.generate_verification_hash(sid_, sec_, key_)
+            except Exception as e:
+                got_ = repr(e)
+            if got_ != java_hex(hashlib.sha1(sid_.encode('utf-8') + sec_ + key_).digest()):
+                wrong.append((sid_, got_))
+                return
+    _sys.setswitchinterval(1e-6)
+    try:
+        ths = [_th.Thread(target=worker, args=(j,), daemon=True) for j in jobs]
+        for t_ in ths:
+            t_.start()
+        for t_ in ths:
+            t_.join(timeout=60)
+    finally:
+        _sys.setswitchinterval(old_si)
+    ctx.case(('concurrent-hashes', len(jobs)))
+    if wrong:
+        ctx.violation('four threads hashing at the same time: the hash for server id %r came back as %s (not the hash of its own inputs)'
+                      % wrong[0], {'server_id': wrong[0][0]}, key={'kind': 'concurrent-hashes'})
     # raw digests through the formatting function (every first byte, random tails, edge patterns)
     digs = [bytes([b]) + bytes(rng.randrange(256) for _ in range(19)) for b in range(256)]
     digs += [bytes(20), b'\xff' * 20, b'\x80' + bytes(19), b'\x7f' + b'\xff' * 19, bytes(19) + b'\x01',
